@@ -128,7 +128,10 @@ func verifC03Stream(R, maxMsg int, withSplit bool, faults bool) {
 			case 1:
 				f.typ = 3
 			case 2:
-				f.tsIdx = 3 + vsymChoice("badts", 3)
+				f.tsIdx = 3
+				if R == 1 {
+					f.tsIdx += vsymChoice("badts", 3) // the calendar variants: single-frame bound only
+				}
 			case 3:
 				f.space = false
 			case 4:
@@ -158,7 +161,8 @@ func verifC03Stream(R, maxMsg int, withSplit bool, faults bool) {
 	}
 	rd := &fragReader{data: stream[:cut], failAt: failAt}
 	// the transport reports a truncated response body as io.ErrUnexpectedEOF
-	transportCut := failAt >= 0 && vsymBool("readErrIsUnexpectedEOF")
+	// (single-frame bound only: the two-frame bound keeps the plain read error)
+	transportCut := failAt >= 0 && R == 1 && vsymBool("readErrIsUnexpectedEOF")
 	if transportCut {
 		rd.failErr = io.ErrUnexpectedEOF
 		// inside a frame header this is indistinguishable from a cut stream,
